@@ -188,7 +188,7 @@ package hessian
 //@   ensures [C14:setvalue-total] true
 
 //@ func SetSlice
-//@   assigns @rset
+//@   assigns @rset, @E
 //@   ensures [C14:setslice-total] true
 
 //@ func (*_refHolder).notify
